@@ -313,6 +313,9 @@ func (v *view) oracleC01() {
 	v.matchPrefix("C01", "h2c", v.cRecv, v.hSend)
 	// clean end seen by the handler => it has every successfully sent request
 	for _, rv := range v.hRecv {
+		if rv.RSeq != 0 && !rv.Err.IsNil() && !rv.Err.IsEOF() {
+			break // the handler was already told that receiving failed
+		}
 		if rv.RSeq != 0 && rv.Err.IsEOF() {
 			lim := 0
 			if v.closesend != nil {
@@ -862,8 +865,8 @@ func (v *view) oracleC04() {
 					good = true
 				}
 			}
-			if !good && v.single && v.hReturn != nil && v.hReturn.Err.IsNil() && v.responsesProduced() != 1 {
-				good = true // C08 error
+			if !good && v.single && ((v.hReturn != nil && v.hReturn.Err.IsNil() && v.responsesProduced() != 1) || v.responsesProduced() >= 2) {
+				good = true // the real outcome: wrong number of responses (C08)
 			}
 			if !good && ev != v.terminal && v.terminal != nil && v.terminal.RSeq < ev.RSeq {
 				// repeated receive after the end: same as the terminal outcome
